@@ -241,6 +241,9 @@ def run_cmd(world, cmd, args, stdin=b'', plan=None, cwd=None, env=None,
     plan = dict(DEFAULT_PLAN, **(plan or {}))
     if getattr(world, 'desc', None) and world.desc.get('drop_caps'):
         plan['drop_caps'] = True      # permissions bite as for an ordinary owner
+    if getattr(world, 'desc', None) and world.desc.get('listdir_seed') is not None \
+            and plan.get('listdir_seed') is None:
+        plan['listdir_seed'] = world.desc['listdir_seed']   # readdir order of this world
     if contracts is None:
         contracts = DEFAULT_CONTRACTS
     cwd = cwd or world.cwd()
@@ -375,6 +378,9 @@ def run_cold(world, cmd, args, stdin=b'', plan=None, cwd=None, env=None,
     plan = dict(DEFAULT_PLAN, **(plan or {}))
     if getattr(world, 'desc', None) and world.desc.get('drop_caps'):
         plan['drop_caps'] = True      # permissions bite as for an ordinary owner
+    if getattr(world, 'desc', None) and world.desc.get('listdir_seed') is not None \
+            and plan.get('listdir_seed') is None:
+        plan['listdir_seed'] = world.desc['listdir_seed']   # readdir order of this world
     if contracts is None:
         contracts = DEFAULT_CONTRACTS
     res = Result()
